@@ -239,6 +239,103 @@ fn case_random<F: Family>(input: &Input, ctx: &mut Ctx) -> CaseResult {
     Ok(())
 }
 
+/// streams whose header uses 2-4 length bytes: every composition of the first 8 bytes, the rest
+/// delivered in one read / one byte then the rest / chunks of 7 / chunks of 1000, x 3 modes.
+/// nums = [remaining length, variant]; variant 0 = valid PUBLISH, 1 = non-minimal header, 2 = trailing packet
+fn header_stream<F: Family>(rl: usize, variant: u64) -> Vec<u8> {
+    let p = c01::sized_publish::<F>(rl);
+    let enc = F::encode(&p).map(|b| b.as_ref().to_vec()).unwrap_or_default();
+    match variant {
+        1 => {
+            // the same frame with its remaining length spelled in one more byte (accepted: L9)
+            match refdec::frame_bounds(&enc) {
+                Ok((hl, r)) if hl < 5 => {
+                    let mut v = vec![enc[0]];
+                    crate::model::write_varint(&mut v, r as u32, hl as u8);
+                    v.extend_from_slice(&enc[hl..]);
+                    v
+                }
+                _ => enc,
+            }
+        }
+        2 => {
+            let mut v = enc;
+            v.extend_from_slice(&[0xC0, 0x00, 0xD0, 0x00]);
+            v
+        }
+        _ => enc,
+    }
+}
+
+fn case_header_splits<F: Family>(input: &Input, ctx: &mut Ctx) -> CaseResult {
+    let n = input.nums();
+    let (rl, variant) = (n[0] as usize, n.get(1).copied().unwrap_or(0));
+    let data = header_stream::<F>(rl, variant);
+    let one = fam::dec_poll_scripted::<F>(&data, &[], 0, None, true);
+    compare::<F>(&data, &one, &one, "one-shot").map_err(Violation::new)?;
+    let k = data.len().min(8);
+    let big = data.len() > 100_000;
+    let mut runs = 0u64;
+    for comp in 0..(1u64 << (k - 1)) {
+        for tail in 0..4u64 {
+            if big && tail >= 2 {
+                continue;
+            }
+            for mode in 0..3u64 {
+                if big && mode == 1 {
+                    continue;
+                }
+                let mut steps = composition_steps(k, comp, mode);
+                if mode >= 1 {
+                    steps.pop(); // the trailing Pending belongs after the whole stream
+                }
+                let rest = data.len() - k;
+                match tail {
+                    0 => {}
+                    1 => {
+                        if mode >= 1 {
+                            steps.push(Step::Pending);
+                        }
+                        steps.push(Step::Chunk(1));
+                    }
+                    2 => {
+                        for _ in 0..(rest / 7 + 1).min(4000) {
+                            if mode >= 1 {
+                                steps.push(Step::Pending);
+                            }
+                            steps.push(Step::Chunk(7));
+                        }
+                    }
+                    _ => {
+                        for _ in 0..(rest / 1000 + 1).min(4000) {
+                            if mode >= 1 {
+                                steps.push(Step::Pending);
+                            }
+                            steps.push(Step::Chunk(1000));
+                        }
+                    }
+                }
+                if mode >= 1 {
+                    steps.push(Step::Pending);
+                }
+                let run = fam::dec_poll_scripted::<F>(&data, &steps, if mode == 2 { u64::MAX } else { 0 }, None, true);
+                let what = format!("{} PUBLISH with remaining length {} (variant {}), first {} bytes split as {:#b}, tail delivery {}, mode {}", F::FAM.name(), rl, variant, k, comp, tail, mode);
+                compare::<F>(&data, &one, &run, &what).map_err(Violation::new)?;
+                runs += 1;
+            }
+        }
+    }
+    ctx.more_evals(runs.saturating_sub(1));
+    ctx.count_distinct(runs);
+    ctx.label_n("schedules", runs);
+    let hl = refdec::frame_bounds(&data).map(|x| x.0).unwrap_or(0);
+    ctx.label(&format!("header-width:{}", hl.saturating_sub(1)));
+    ctx.sample(|| format!("{} stream {} ({} bytes): all {} splits of the first {} bytes x tail deliveries x modes", F::FAM.name(), hex_short(&data, 12), data.len(), 1u64 << (k - 1), k));
+    Ok(())
+}
+
+pub const SUB_H3: Sub = Sub { name: "c05.header-splits.v3", f: case_header_splits::<V3> };
+pub const SUB_H5: Sub = Sub { name: "c05.header-splits.v5", f: case_header_splits::<V5> };
 pub const SUB_C3: Sub = Sub { name: "c05.compositions.v3", f: case_compositions::<V3> };
 pub const SUB_C5: Sub = Sub { name: "c05.compositions.v5", f: case_compositions::<V5> };
 pub const SUB_S3: Sub = Sub { name: "c05.schedule.v3", f: case_schedule::<V3> };
@@ -247,7 +344,7 @@ pub const SUB_R3: Sub = Sub { name: "c05.random.v3", f: case_random::<V3> };
 pub const SUB_R5: Sub = Sub { name: "c05.random.v5", f: case_random::<V5> };
 
 pub fn subs() -> Vec<Sub> {
-    vec![SUB_C3, SUB_C5, SUB_S3, SUB_S5, SUB_R3, SUB_R5]
+    vec![SUB_C3, SUB_C5, SUB_S3, SUB_S5, SUB_R3, SUB_R5, SUB_H3, SUB_H5]
 }
 
 fn blocks<F: Family>(max_len: usize) -> (Vec<Input>, usize, usize) {
@@ -282,6 +379,30 @@ pub fn run(env: &mut Env) -> RunResult {
     let n = env.tier.sel(20_000, 250_000);
     env.run_tapes(SUB_R3, n, 260)?;
     env.run_tapes(SUB_R5, n * 2, 360)?;
+    // multi-byte headers: every split of the first 8 bytes
+    let mut hs: Vec<Input> = Vec::new();
+    let rls: &[u64] = if env.thorough() {
+        &[128, 129, 200, 255, 16_383, 16_384, 16_385, 16_500, 16_511, 20_000, 65_536, 2_097_151, 2_097_152, 2_097_153, 2_097_300, 3_000_003]
+    } else {
+        &[128, 129, 200, 16_383, 16_384, 16_385, 16_500, 20_003, 2_097_152]
+    };
+    for rl in rls {
+        for variant in 0..3u64 {
+            if *rl > 100_000 && variant == 1 && !env.thorough() {
+                continue;
+            }
+            hs.push(Input::Nums(vec![*rl, variant]));
+        }
+    }
+    let k = hs.len() as u64;
+    let h2 = hs.clone();
+    env.run_enum(SUB_H3, k, false, move |i| h2[i as usize].clone())?;
+    env.run_enum(SUB_H5, k, false, move |i| hs[i as usize].clone())?;
+    for s in ["c05.header-splits.v3", "c05.header-splits.v5"] {
+        env.require(s, "header-width:2");
+        env.require(s, "header-width:3");
+        env.require(s, "header-width:4");
+    }
     for s in ["c05.random.v3", "c05.random.v5"] {
         for l in ["dropped-at-pending", "pending-inside-var-int", "header-width:2", "header-width:3", "stream:accepted", "stream:rejected-or-incomplete"] {
             env.require(s, l);
